@@ -56,6 +56,20 @@ func (e *Engine) EnableStub(name, kind string) {
 			}
 			return c.Outcomes(c.sol2(), []Outcome{{Cond: b, Ret: mk(errv)}, {Cond: Not(b), Ret: mk(Iface{})}})
 		}
+	case "cond-eq":
+		// dag.EvalConditions on literal conditions (no $, no backtick, no "re:" prefix):
+		// ExpandEnv and substituteCommands are the identity and MatchPattern(exact) is
+		// equality, so the result is nil iff every Condition equals its Expected.
+		e.Intr[full] = func(c *Call) []*State {
+			sl := c.Args[0].(Slice)
+			all := True
+			for i := 0; i < sl.Len; i++ {
+				el := c.St.Load(Ptr{Obj: sl.Obj, Path: []int{sl.Off + i}}).(*Struct)
+				all = And(all, Eq(el.F[0].(*Term), el.F[1].(*Term)))
+			}
+			errv := c.E.newErrorString(c.St, StrC("condition was not met"))
+			return c.Outcomes(c.sol2(), []Outcome{{Cond: all, Ret: Iface{}}, {Cond: Not(all), Ret: errv}})
+		}
 	default:
 		panic("unknown stub kind " + kind)
 	}
